@@ -33,8 +33,15 @@ def BOUNDS(tier):
 
 
 def shards(tier):
+    from vlib.mutprops import topo_orders
+
     n = 3 if tier == "quick" else 4
-    return [{"name": "search-%s" % shape_str(sh), "shape": list(sh)} for sh in shapes_upto(n, 1)]
+    out = [{"name": "search-%s" % shape_str(sh), "shape": list(sh)} for sh in shapes_upto(n, 1)]
+    # trees whose creation order differs from the document order (results must follow the tree)
+    for sh in shapes_upto(3, 3):
+        for order in topo_orders(sh)[1:3 if tier == "quick" else None]:
+            out.append({"name": "search-%s-o%s" % (shape_str(sh), "".join(map(str, order))), "shape": list(sh), "order": list(order)})
+    return out
 
 
 def params(desc):
@@ -73,7 +80,7 @@ def body(ctx, desc, x):
     k = int(x["k"])
     kk = None if k == 0 else k
     try:
-        tree, nodes = build(shape, labels, node_ids=[1000 + i for i in range(n)])
+        tree, nodes = build(shape, labels, node_ids=[1000 + i for i in range(n)], order=desc.get("order"))
     except Exception:  # noqa: BLE001 - two siblings with one name: not constructible
         return ""
     ctx.mark()
